@@ -64,6 +64,10 @@ def thr_table(rate, m):
     tab = [int(L * rate) for L in range(m + 1)]
     # hypothesis of C01_errors_achieved / C01_threshold_tables: non-negative and non-decreasing
     assert all(x >= 0 for x in tab) and all(a <= b for a, b in zip(tab, tab[1:])), ("threshold table not monotone", rate, m)
+    if rate < 1:
+        # hypotheses of C07_no_change (Proofs/KmerOverlap.v): thr 0 = 0, steps of at most one, thr i < i
+        assert tab[0] == 0 and all(b - a <= 1 for a, b in zip(tab, tab[1:])) and all(tab[i] < i for i in range(1, m + 1)), \
+            ("threshold table violates the hypotheses of C07_no_change", rate, m)
     return tab
 
 
